@@ -654,6 +654,7 @@ func (w *World) nodeReactor(a core.Action) (bool, runtime.Object, error) {
 		if !ok {
 			return false, nil, nil
 		}
+		w.J.MaybeCrash()
 		fail := w.J.Hit("update", nd.Name)
 		c := w.classifyUpdate(nd)
 		c.Ok = !fail
@@ -663,6 +664,7 @@ func (w *World) nodeReactor(a core.Action) (bool, runtime.Object, error) {
 		}
 		return false, nil, nil
 	case "delete":
+		w.J.MaybeCrash()
 		name := a.(core.DeleteAction).GetName()
 		fail := w.J.Hit("delete", name)
 		w.J.Add(Call{Op: "delete", G: w.curGroup(), N: name, Ok: !fail})
